@@ -90,7 +90,7 @@ pub fn check(c: &Case, obs: &mut Obs) -> R {
                             // backends put NULLS .. on the CASE (which is never NULL)
                             let j = serde_json::to_string(st).unwrap_or_default();
                             let field_with_nulls = regex_lite_field_nulls(&j);
-                            let sig = if field_with_nulls && d == Dialect::Mysql { format!("{sig}/field-order-with-nulls") } else { sig };
+                            let sig = if field_with_nulls && d == Dialect::Mysql { "mysql/field-order-with-nulls".to_string() } else { sig };
                             return fail(
                                 sig,
                                 format!("{} {mode}: {text:?}\ntransliterated: {tl:?}\n{detail}\nspec {st:?}", d.name()),
